@@ -104,6 +104,10 @@ def level_for(ctx, prop):
                 v.obligation = (v.obligation + '; ' if v.obligation else '') + o['name']
                 v.solver_output = (v.solver_output or '') + ' %s: %s' % (o['name'], o['detail'] or o['status'])
             continue
+        if o['status'] == 'unknown' and 'killed at the hard wall-clock limit' in (o['detail'] or ''):
+            # the solver did not come back and was killed: a tool failure, not a verdict about the code
+            ctx.undecided.append('obligation=%s (%s)' % (o['name'], o['detail']))
+            continue
         if o['name'] in base:
             ctx.violation(core.Violation(
                 prop, 'obligation:' + o['name'].split(':', 1)[1].split(':')[0], 'obligation %s was discharged on the unchanged tree and now fails (%s)'
